@@ -617,7 +617,7 @@ def genObjReturn : List (Nat × String) := [
   (0, "vm.popCtx()"),
   (0, "return g.step(res, done, ex)")]
 
-/-- model: `(outside the model; Idle vector: curAsyncRunner reset by defer)` -/
+/-- model: `asyncResume (curAsyncRunner itself: Idle vector only)` -/
 def asyncOnFulfilled : List (Nat × String) := [
   (0, "ar.gen.vm.curAsyncRunner = ar"),
   (0, "defer func()"),
@@ -626,7 +626,7 @@ def asyncOnFulfilled : List (Nat × String) := [
   (0, "ar.step(res, resType == resultNormal, ex)"),
   (0, "return _undefined")]
 
-/-- model: `(outside the model; Idle vector: curAsyncRunner reset by defer)` -/
+/-- model: `asyncResume's throw-in variant (not modelled: awaits of settled values only)` -/
 def asyncOnRejected : List (Nat × String) := [
   (0, "ar.gen.vm.curAsyncRunner = ar"),
   (0, "defer func()"),
@@ -634,6 +634,31 @@ def asyncOnRejected : List (Nat × String) := [
   (0, "res, resType, ex := ar.gen.nextThrow(reason)"),
   (0, "ar.step(res, resType == resultNormal, ex)"),
   (0, "return _undefined")]
+
+/-- model: `asyncNew / actEnter / actCall / actBack` -/
+def asyncStart : List (Nat × String) := [
+  (0, "sp := r.vm.sp"),
+  (0, "ar.gen.enter()"),
+  (0, "entered := false"),
+  (0, "defer ar.gen.dropMarkerOnPanic(&entered)"),
+  (0, "ar.vmCall(r.vm, nArgs)"),
+  (0, "res, resType, ex := ar.gen.step()"),
+  (0, "entered = true"),
+  (0, "ar.step(res, resType == resultNormal, ex)"),
+  (0, "if ex != nil"),
+  (1, "r.vm.sp = sp - nArgs - 2"),
+  (0, "r.vm.popTryFrame()"),
+  (0, "r.vm.popCtx()")]
+
+/-- model: `asyncNew / asyncResume (await = queue the continuation; done / ex = settle the promise)` -/
+def asyncStep : List (Nat × String) := [
+  (0, "if done || ex != nil"),
+  (1, "if ex == nil"),
+  (2, "ar.promiseCap.resolve(res)"),
+  (1, "else"),
+  (2, "ar.promiseCap.reject(ex.val)"),
+  (1, "return"),
+  (0, "promise.self.(*Promise).addReactions(&promiseReaction{ typ: promiseReactionFulfill, handler: &jobCallback{callback: ar.onFulfilled}, asyncRunner: ar, }, &promiseReaction{ typ: promiseReactionReject, handler: &jobCallback{callback: ar.onRejected}, asyncRunner: ar, })")]
 
 end GojaModel.C03.Expected
 
@@ -729,5 +754,9 @@ theorem genObjReturn_tie : Generated.C03.genObjReturn = C03.Expected.genObjRetur
 theorem asyncOnFulfilled_tie : Generated.C03.asyncOnFulfilled = C03.Expected.asyncOnFulfilled := rfl
 
 theorem asyncOnRejected_tie : Generated.C03.asyncOnRejected = C03.Expected.asyncOnRejected := rfl
+
+theorem asyncStart_tie : Generated.C03.asyncStart = C03.Expected.asyncStart := rfl
+
+theorem asyncStep_tie : Generated.C03.asyncStep = C03.Expected.asyncStep := rfl
 
 end GojaModel.C03.Tie
